@@ -3,6 +3,7 @@ package main
 import (
 	"go/token"
 	"go/types"
+	"strings"
 
 	"golang.org/x/tools/go/ssa"
 )
@@ -13,7 +14,35 @@ func init() {
 
 const pTypes = "protocol/bc/types"
 
+// pooled-buffer readers that copy the bytes out before returning
+var poolCopyOut = map[string]int{
+	"encoding/hex.Encode":                        1,
+	"encoding/blockchain.WriteVarstr31":          1,
+	"(io.Writer).Write":                          0,
+	"(*bytes.Buffer).Write":                      1,
+	"encoding/hex.EncodeToString":                0,
+	"(hash.Hash).Write":                          0,
+	"(golang.org/x/crypto/sha3.ShakeHash).Write": 0,
+}
+
 func ruleC04(c *Ctx) {
+	// what a decoder or encoder hands out must not live in a pooled buffer
+	{
+		var fns []*ssa.Function
+		for f := range c.allFuncs() {
+			if inModule(f) && len(f.Blocks) > 0 && len(callsTo(f, false, "encoding/bufpool.Put")) > 0 {
+				fns = append(fns, f)
+			}
+		}
+		n := 0
+		for _, f := range fns {
+			n++
+			esc := poolEscapes(c, f, poolCopyOut)
+			sortStrings(esc)
+			c.Require("poolescape", fname(topFunc(f))+": bytes of a pooled buffer do not outlive its return to the pool", len(esc) == 0, "%d pooled-byte use(s) that can outlive the buffer: %s", len(esc), strings.Join(esc, "; "))
+		}
+		c.Floor("poolescape", 3)
+	}
 	c.Explain("C04 (structural part): reader/writer codec-sequence agreement. For every wire type the ordered sequence of primitive codec operations (varint63, varint31, varstr31, varstr list, hash, raw byte, nested extensible string) performed by its reader — following helpers, closures and bound methods handed to ReadExtensibleString — equals the sequence performed by its writer, including the struct field each operation touches where visible; the type byte read by the container (parseTypedInput/Output) is the one each typed writer emits first; the recorded SerializedSize is the difference of the same reader's remaining length; text forms go through hex both ways. Not decided: value equality after a round trip (nil vs empty slices, bounds inside the primitives such as list-length guards), JSON forms.")
 	pairs := []codecPair{
 		{pTypes, "(*TxData).readFrom", "(*TxData).writeTo", 0, 0, ""},
